@@ -129,8 +129,15 @@ def compare(plan, resL, resF):
                     if side[j][0] == "btt":
                         taken.append(json.loads(side[j][1])[0])
                     j += 1
-            v.append(("C03.trace-differs", "session %s: record %d differs: large=%s fast=%s; before: %s taken=%s" % (
-                s, d, x[d] if d < len(x) else None, y[d] if d < len(y) else None, x[max(0, d - 3):d], json.dumps(sorted(set(taken))))))
+            # transitions taken before the diverging micro-step (either engine): a recorded deviation that fired earlier leaves
+            # the two engines in different (possibly illegal) configurations, and the difference only shows later
+            earlier = []
+            for side in (x, y):
+                for rec in side[:d]:
+                    if rec[0] == "btt":
+                        earlier.append(json.loads(rec[1])[0])
+            v.append(("C03.trace-differs", "session %s: record %d differs: large=%s fast=%s; before: %s earlier=%s taken=%s" % (
+                s, d, x[d] if d < len(x) else None, y[d] if d < len(y) else None, x[max(0, d - 3):d], json.dumps(sorted(set(earlier))), json.dumps(sorted(set(taken))))))
             break
     return v, info
 
@@ -210,6 +217,16 @@ def classify(rule, detail, plan):
             return "C03-transition-into-history-of-active-parent"
         if taken and ancestor_pair_with_targetless(plan["charts"]["main"], taken):
             return "C03-fast-engine-suppresses-ancestor-transition-next-to-targetless-descendant"
+        # the history deviation fired in an earlier micro-step of this run (each of its transitions taken alone)
+        m2 = re.search(r"earlier=(\[.*?\]) taken=", detail)
+        if m2:
+            try:
+                earlier = json.loads(m2.group(1))
+            except ValueError:
+                earlier = []
+            for t in earlier:
+                if p_c01.history_of_active_parent(plan["charts"]["main"], [t]):
+                    return "C03-transition-into-history-of-active-parent"
     return None
 
 
